@@ -163,6 +163,100 @@ theorem coordinated_alteration_completes (H : Nat → Nat → C) (n1 n1' : Nat) 
       fun _ => ⟨H n1' n2⟩⟩).completes = true := by
   rw [handshake_completes_iff]; simp
 
+/-! ## Wire level (acts that do not unmarshal) -/
+
+/-- When every delivered act unmarshals, the wire-level run is the message-level run: all theorems
+    above apply to it unchanged. -/
+theorem runWire_lift (H : Nat → Nat → C) (n1 : Nat) (p1 : String) (n2 : Nat) (p2 : String)
+    (net : Net C) : runWire H n1 p1 n2 p2 net.toW = run H n1 p1 n2 p2 net := by
+  rfl
+
+/-- Wire-level characterisation: the handshake completes iff all three delivered acts unmarshal
+    (to `m1 m2 m3`) and the four conditions of `handshake_completes_iff` hold for them. -/
+theorem runWire_completes_iff (H : Nat → Nat → C) (n1 : Nat) (p1 : String) (n2 : Nat) (p2 : String)
+    (w : WNet C) :
+    (runWire H n1 p1 n2 p2 w).completes = true ↔
+      ∃ m1 m2 m3, w.f1 ⟨n1, p1⟩ = some m1 ∧ w.f2 ⟨n2, H m1.nonce n2, p2⟩ = some m2 ∧
+        w.f3 ⟨m2.challenge⟩ = some m3 ∧
+        m1.proto = p2 ∧ m2.proto = p1 ∧ m2.challenge = H n1 m2.nonce ∧ m3.challenge = H m1.nonce n2 := by
+  unfold runWire
+  cases h1 : w.f1 ⟨n1, p1⟩ with
+  | none => simp [Outcome.completes, h1]
+  | some m1 =>
+    simp only [answer, ne_eq, ite_not]
+    by_cases hp1 : m1.proto = p2
+    · simp only [hp1, if_true]
+      cases h2 : w.f2 ⟨n2, H m1.nonce n2, p2⟩ with
+      | none => simp [Outcome.completes, h1, h2]
+      | some m2 =>
+        simp only [initiatorNext, ne_eq, ite_not]
+        by_cases hp2 : m2.proto = p1
+        · simp only [hp2, if_true]
+          by_cases hc2 : H n1 m2.nonce = m2.challenge
+          · have hc2' : m2.challenge = H n1 m2.nonce := hc2.symm
+            simp only [hc2, if_true]
+            cases h3 : w.f3 ⟨m2.challenge⟩ with
+            | none => simp [Outcome.completes, h1, h2, h3]
+            | some m3 =>
+              simp only [finalize, ne_eq, ite_not]
+              by_cases hc3 : H m1.nonce n2 = m3.challenge
+              · constructor
+                · intro _
+                  exact ⟨m1, m2, m3, rfl, h2, h3, hp1, hp2, hc2', hc3.symm⟩
+                · intro _
+                  simp [hc3, Outcome.completes]
+              · have hc3' : ¬ m3.challenge = H m1.nonce n2 := fun h => hc3 h.symm
+                simp [h1, h2, h3, hc3, hc3', Outcome.completes]
+          · have hc2' : ¬ m2.challenge = H n1 m2.nonce := fun h => hc2 h.symm
+            simp [h1, h2, hc2, hc2', Outcome.completes]
+        · simp [h1, h2, hp2, Outcome.completes]
+    · simp [h1, hp1, Outcome.completes]
+
+/-- An act that is altered so that it does not unmarshal (e.g. a challenge field of 31 or 33 bytes,
+    a nonce field of 7 bytes) makes the handshake fail, whichever act it is. -/
+theorem undecodable_act_fails (H : Nat → Nat → C) (n1 : Nat) (p1 : String) (n2 : Nat) (p2 : String)
+    (w : WNet C)
+    (h : w.f1 ⟨n1, p1⟩ = none ∨ (∀ a2, w.f2 a2 = none) ∨ (∀ a3, w.f3 a3 = none)) :
+    (runWire H n1 p1 n2 p2 w).completes = false := by
+  cases hc : (runWire H n1 p1 n2 p2 w).completes with
+  | false => rfl
+  | true =>
+    exfalso
+    obtain ⟨m1, m2, m3, a, b, c, _⟩ := (runWire_completes_iff H n1 p1 n2 p2 w).1 hc
+    rcases h with h | h | h
+    · rw [h] at a; cases a
+    · rw [h] at b; cases b
+    · rw [h] at c; cases c
+
+theorem completesW_eq_expected (H : Nat → Nat → C) (n1 : Nat) (p1 : String) (n2 : Nat) (p2 : String)
+    (w : WNet C) : (runWire H n1 p1 n2 p2 w).completes = expectedCompleteW H n1 p1 n2 p2 w := by
+  rw [Bool.eq_iff_iff, runWire_completes_iff]
+  unfold expectedCompleteW
+  constructor
+  · rintro ⟨m1, m2, m3, e1, e2, e3, a, b, c, d⟩
+    simp only [e1, e2, e3, Bool.and_eq_true, decide_eq_true_eq]
+    exact ⟨⟨⟨a, b⟩, c⟩, d⟩
+  · intro h
+    split at h
+    · cases h
+    · rename_i m1 e1
+      split at h
+      · cases h
+      · rename_i m2 e2
+        split at h
+        · cases h
+        · rename_i m3 e3
+          simp only [Bool.and_eq_true, decide_eq_true_eq] at h
+          exact ⟨m1, m2, m3, e1, e2, e3, h.1.1.1, h.1.1.2, h.1.2, h.2⟩
+
+/-- The wire-level monitor accepts every wire-level model run. -/
+theorem holds_model_wire (H : Nat → Nat → C) (n1 : Nat) (p1 : String) (n2 : Nat) (p2 : String)
+    (w : WNet C) : holdsW H n1 p1 n2 p2 w (runWire H n1 p1 n2 p2 w).completes = true := by
+  simp [holdsW, completesW_eq_expected]
+
+/-- T1 tie: the field lengths `Unmarshal` insists on (re-exported constants of marshaling.go). -/
+theorem wire_lengths_fact : Gen.C20.nonceByteLength = 8 ∧ Gen.C20.challengeByteLength = 32 := by decide
+
 /-! Non-vacuity: an injective `H` exists (pairs), and the hypotheses of the tamper theorems are
 satisfiable; concrete runs evaluate as expected. -/
 example : HInjective (fun a b : Nat => (a, b)) := by
